@@ -28,7 +28,7 @@ GEN_MODULE = "socalloc/SocAlloc"
 TRACE_MODULE = "socalloc/SocAllocTrace"
 FAMILIES = ("bus", "loc", "plat")
 INVARIANTS = ["Verdicts", "EnvLegal", "PairwiseDisjoint", "AlignedToDecodedSize", "InsideAddressSpace", "UncachedInsideIO",
-              "CachedOutsideIO", "DecoderExact", "NoAddressSelectsTwo", "LocUnique", "LocInRange", "NameUnique",
+              "CachedOutsideIO", "DecoderExact", "NoAddressSelectsTwo", "InterconnectDecoders", "LocUnique", "LocInRange", "NameUnique",
               "GrantCoversRequest", "ResourceGrantedOnce", "LookupOnlyMatched", "RejectedAtLatestAtFinalize"]
 BATCH_NODES = 40000
 NPROC = min(16, os.cpu_count() or 1)
@@ -332,12 +332,28 @@ def _witness(family, nodes, w):
                     w["bus.region.auto" if r["au"] else "bus.region.fixed"] += 1
                     if not r["c"]:
                         w["bus.region.uncached"] += 1
+                    # an uncached region allocated inside an IO region whose origin is not a multiple of
+                    # the region's decoded size (alignment must be absolute, not relative to the IO region)
+                    if r["au"] and not r["c"] and any(io["o"] <= r["o"] < io["o"] + io["s"] and io["o"] % r["p2"]
+                                                      for io in nd["ios"]):
+                        w["bus.region.auto_in_io_region_of_other_alignment"] += 1
+            # decoders handed to the interconnect by finalize
+            if nd["fds"]:
+                w["bus.fdec"] += len(nd["fds"])
+                if [r["n"] for r in nd["regs"]] != list(nd["sls"]):
+                    w["bus.fdec.slaves_and_regions_in_different_order"] += 1
+        # requests delivered through the constructors (reserved_regions / reserved_csrs)
+        if family in ("bus", "loc") and nd.get("rsv", 0) >= 2 and nd["d"] == nd["rsv"]:
+            w["%s.rsv" % family] += 1                        # required (the stimulus was delivered)
+            w["%s.rsv.%s" % (family, nd["out"])] += 1        # informative (what the constructor answered)
 
 
 REQUIRED_WITNESSES = {
     "bus": ["bus.out.ok", "bus.out.SoCError", "bus.fin.ok", "bus.fin.SoCError", "bus.ic.shared", "bus.ic.p2p",
-            "bus.ic.none", "bus.region.auto", "bus.region.fixed", "bus.region.uncached"],
-    "loc": ["loc.out.ok", "loc.out.SoCError"],
+            "bus.ic.none", "bus.region.auto", "bus.region.fixed", "bus.region.uncached",
+            "bus.region.auto_in_io_region_of_other_alignment", "bus.fdec", "bus.fdec.slaves_and_regions_in_different_order",
+            "bus.rsv"],
+    "loc": ["loc.out.ok", "loc.out.SoCError", "loc.rsv"],
     "plat": ["plat.out.ok", "plat.out.none", "plat.out.ConstraintError"],
 }
 
@@ -442,7 +458,7 @@ def run(prop, report, tier, seed):
         sig = {"family": family, "clause": clause, "class": cls}
         text = "%s/%s violated (%d recorded prefixes) e.g. [%s] %s -> %s" % (
             clause, cls, g["count"], meta[0][1][0], _describe(family, meta[1]),
-            json.dumps({k: v for k, v in node.items() if k in ("out", "fin", "ic", "regs", "ios", "locs", "mt", "av", "ret")},
+            json.dumps({k: v for k, v in node.items() if k in ("out", "fin", "ic", "regs", "ios", "fds", "locs", "mt", "av", "ret")},
                        default=str)[:600])
         replay = dict(hist)
         replay.update({"clause": clause, "class": cls, "trace_module": TRACE_MODULE, "count": g["count"]})
